@@ -5,6 +5,7 @@ EXTENDS TopicStream, TLC, Json
 
 CONSTANTS
     MaxPub, MaxImp, MaxAck, MaxForeign, MaxReset, MaxCrash,
+    MinWork,        \* a behaviour is exported only after that many publish/import steps
     Controlled      \* TRUE in the export configs: only schedules the harness can force (see NOTES.md)
 
 VARIABLES
@@ -39,30 +40,91 @@ Budgets ==
 
 OpenArg(p, from) == [p |-> p, from |-> from, c |-> cursor', expect |-> OpsJson(expect'), rq |-> rq']
 
-Steps ==
-    \/ \E p \in Policies : Open(p) /\ Log("Open", OpenArg(p, "frontier"))
-    \/ \E p \in Policies : OpenFromStart(p) /\ Log("Open", OpenArg(p, "start"))
-    \/ \E p \in Policies, c \in [Authors -> ResetHeights] : OpenFromCursor(p, c) /\ Log("Open", OpenArg(p, "cursor"))
-    \/ ForgeBegin /\ Log("ForgeBegin", [op |-> pub'.op])
-    \/ ForgeCommit /\ Log("ForgeCommit", [op |-> pub.op])
-    \/ Enqueue /\ Log("Enqueue", [op |-> pub.op])
-    \/ ForgeForeign /\ Log("ForgeForeign", [op |-> MkOp(Me, F, Height(stored, Me, F) + 1, TRUE)])
-    \/ TakePublished /\ Log("TakePublished", [op |-> st'.op])
-    \/ \E r \in Remotes, s \in 0..(Len(RemoteBodies) - 1) :
-          /\ (Controlled => pubq = <<>>)
-          /\ TakeImported(r, s) /\ Log("TakeImported", [op |-> st'.op])
-    \/ PipelineProcess /\ Log("PipelineProcess", [op |-> st.op])
-    \/ SkipAck /\ Log("SkipAck", [op |-> st.op])
-    \/ AckRead /\ Log("AckRead", [op |-> st.op])
-    \/ AckWriteTx /\ Log("AckWriteTx", [op |-> st.op])
-    \/ AckCommit /\ Log("AckCommit", [op |-> st.op])
-    \/ Deliver /\ Log("Deliver", [op |-> st.op])
-    \/ ReplayEnd /\ Log("ReplayEnd", NoArg)
-    \/ AppRecv /\ Log("AppRecv", [ev |-> Head(chan)])
-    \/ \E o \in stored : AppAckBegin(o) /\ Log("AppAckBegin", [op |-> o])
-    \/ AppAckWriteTx /\ Log("AppAckWriteTx", [op |-> app.op])
-    \/ AppAckCommit /\ Log("AppAckCommit", [op |-> app.op])
-    \/ Crash /\ Log("Crash", [stpc |-> st.pc, pubpc |-> pub.pc, apppc |-> app.pc, stctx |-> st.ctx])
+\* one named wrapper per action (TLC reports coverage per name; checks.json requires each > 0)
+S_Open ==
+    /\ ~done /\ done' = done
+    /\ \E p \in Policies : Open(p) /\ Log("Open", OpenArg(p, "frontier"))
+    /\ Budgets
+S_OpenFromStart ==
+    /\ ~done /\ done' = done
+    /\ \E p \in Policies : OpenFromStart(p) /\ Log("Open", OpenArg(p, "start"))
+    /\ Budgets
+S_OpenFromCursor ==
+    /\ ~done /\ done' = done
+    /\ \E p \in Policies, c \in [Authors -> ResetHeights] : OpenFromCursor(p, c) /\ Log("Open", OpenArg(p, "cursor"))
+    /\ Budgets
+S_ForgeBegin ==
+    /\ ~done /\ done' = done
+    /\ ForgeBegin /\ Log("ForgeBegin", [op |-> pub'.op])
+    /\ Budgets
+S_ForgeCommit ==
+    /\ ~done /\ done' = done
+    /\ ForgeCommit /\ Log("ForgeCommit", [op |-> pub.op])
+    /\ Budgets
+S_Enqueue ==
+    /\ ~done /\ done' = done
+    /\ Enqueue /\ Log("Enqueue", [op |-> pub.op])
+    /\ Budgets
+S_ForgeForeign ==
+    /\ ~done /\ done' = done
+    /\ ForgeForeign /\ Log("ForgeForeign", [op |-> MkOp(Me, F, Height(stored, Me, F) + 1, TRUE)])
+    /\ Budgets
+S_TakePublished ==
+    /\ ~done /\ done' = done
+    /\ TakePublished /\ Log("TakePublished", [op |-> st'.op])
+    /\ Budgets
+S_TakeImported ==
+    /\ ~done /\ done' = done
+    /\ \E r \in Remotes, s \in 0..(Len(RemoteBodies) - 1) : (Controlled => pubq = <<>>) /\ TakeImported(r, s) /\ Log("TakeImported", [op |-> st'.op])
+    /\ Budgets
+S_PipelineProcess ==
+    /\ ~done /\ done' = done
+    /\ PipelineProcess /\ Log("PipelineProcess", [op |-> st.op])
+    /\ Budgets
+S_SkipAck ==
+    /\ ~done /\ done' = done
+    /\ SkipAck /\ Log("SkipAck", [op |-> st.op])
+    /\ Budgets
+S_AckRead ==
+    /\ ~done /\ done' = done
+    /\ AckRead /\ Log("AckRead", [op |-> st.op])
+    /\ Budgets
+S_AckWriteTx ==
+    /\ ~done /\ done' = done
+    /\ AckWriteTx /\ Log("AckWriteTx", [op |-> st.op])
+    /\ Budgets
+S_AckCommit ==
+    /\ ~done /\ done' = done
+    /\ AckCommit /\ Log("AckCommit", [op |-> st.op])
+    /\ Budgets
+S_Deliver ==
+    /\ ~done /\ done' = done
+    /\ Deliver /\ Log("Deliver", [op |-> st.op])
+    /\ Budgets
+S_ReplayEnd ==
+    /\ ~done /\ done' = done
+    /\ ReplayEnd /\ Log("ReplayEnd", NoArg)
+    /\ Budgets
+S_AppRecv ==
+    /\ ~done /\ done' = done
+    /\ AppRecv /\ Log("AppRecv", [ev |-> Head(chan)])
+    /\ Budgets
+S_AppAckBegin ==
+    /\ ~done /\ done' = done
+    /\ \E o \in stored : AppAckBegin(o) /\ Log("AppAckBegin", [op |-> o])
+    /\ Budgets
+S_AppAckWriteTx ==
+    /\ ~done /\ done' = done
+    /\ AppAckWriteTx /\ Log("AppAckWriteTx", [op |-> app.op])
+    /\ Budgets
+S_AppAckCommit ==
+    /\ ~done /\ done' = done
+    /\ AppAckCommit /\ Log("AppAckCommit", [op |-> app.op])
+    /\ Budgets
+S_Crash ==
+    /\ ~done /\ done' = done
+    /\ Crash /\ Log("Crash", [stpc |-> st.pc, pubpc |-> pub.pc, apppc |-> app.pc, stctx |-> st.ctx])
+    /\ Budgets
 
 \* a behaviour is complete when the node is up again after at least one crash, replay is over and
 \* everything was received; export happens there
@@ -70,14 +132,34 @@ Quiet ==
     /\ up /\ st.pc = "idle" /\ pub.pc = "idle" /\ pubq = <<>> /\ app.pc = "idle" /\ chan = <<>>
 
 Finish ==
-    /\ ~done /\ Quiet /\ crashes >= 1
+    /\ ~done /\ Quiet /\ crashes >= 1 /\ nPub + nImp >= MinWork
     /\ done' = TRUE
     /\ UNCHANGED <<vars, hist>>
 
 MCInit == Init /\ hist = <<>> /\ done = FALSE
 
 MCNext ==
-    \/ (~done /\ Steps /\ Budgets /\ done' = done)
+    \/ S_Open
+    \/ S_OpenFromStart
+    \/ S_OpenFromCursor
+    \/ S_ForgeBegin
+    \/ S_ForgeCommit
+    \/ S_Enqueue
+    \/ S_ForgeForeign
+    \/ S_TakePublished
+    \/ S_TakeImported
+    \/ S_PipelineProcess
+    \/ S_SkipAck
+    \/ S_AckRead
+    \/ S_AckWriteTx
+    \/ S_AckCommit
+    \/ S_Deliver
+    \/ S_ReplayEnd
+    \/ S_AppRecv
+    \/ S_AppAckBegin
+    \/ S_AppAckWriteTx
+    \/ S_AppAckCommit
+    \/ S_Crash
     \/ Finish
 
 MCSpec == MCInit /\ [][MCNext]_mcvars
